@@ -26,7 +26,7 @@ fn explore_poll(cfg: &Cfg, rep: &mut Report, chans: &[u8], values: &[u8], timeou
     rep.evaluations += st.transitions;
     rep.distinct_nontrivial += st.states;
     rep.max("max_explorer_depth", st.depth);
-    if !st.fixpoint {
+    if !st.fixpoint && !tag.starts_with("auto") {
         rep.inconclusive(format!("{} explorer (channels {:?}, timeout {}) did not reach a fixpoint within {} states", tag, chans, timeout, max_states));
     }
     let tname = if timeout == T_INF { "inf".to_string() } else { format!("{}ns", timeout) };
@@ -146,6 +146,22 @@ fn require_observed(rep: &mut Report, keys: &[&str]) {
     }
 }
 
+
+
+/// auto-dictionary: bounded exploration with abstract values taken from integer literals that
+/// are new in the tree under test (nothing on the unchanged tree)
+fn explore_poll_auto_dictionary(cfg: &Cfg, rep: &mut Report) {
+    let extra = crate::util::extra_values7();
+    if extra.is_empty() || cfg.as_c18 {
+        return;
+    }
+    for c in crate::util::extra_channels() {
+        for t in [T2, 0] {
+            explore_poll(cfg, rep, &[c], &extra, t, 150_000, "auto-dictionary");
+        }
+    }
+    rep.count("auto_dictionary_explorer_runs", 2 * crate::util::extra_channels().len() as u64);
+}
 
 /// All 16 channels pending at once (in several channel orders), served in another order, twice;
 /// every step judged by the timeout monitor and the history observer. Scanner-level summaries
@@ -279,6 +295,7 @@ pub fn run_c14(cfg: &Cfg, rep: &mut Report) {
     let total = cfg.size(3_000, 10_000_000, 200_000_000);
     random_poll_histories(cfg, rep, total, 0xC14_00, false);
     all_channels_pending(cfg, rep);
+    explore_poll_auto_dictionary(cfg, rep);
     rep.set_exhaustive(false);
     rep.sample(json!({"history":["B0 63 00","B0 62 01","B0 06 01","B0 60 00"],"timeout_ns":2000,"expected":"second-to-last: nothing; last feed returns [7-bit data entry 1, increment 0]"}));
     if !cfg.as_c18 {
@@ -576,6 +593,7 @@ pub fn run_c13(cfg: &Cfg, rep: &mut Report) {
     }
     random_poll_histories(cfg, rep, cfg.size(3_000, 8_000_000, 150_000_000), 0xC13_00, true);
     all_channels_pending(cfg, rep);
+    explore_poll_auto_dictionary(cfg, rep);
     metamorphic(cfg, rep, cfg.size(1_000, 2_000_000, 40_000_000));
     rep.set_exhaustive(false);
     rep.sample(json!({"template":["x","y","B5 26 21","tick T","poll 5 -> None","B5 06 2C -> nothing","tick T","poll 5 -> 7-bit 44"],"meaning":"unpaired LSB dropped by the first poll after the timeout"}));
@@ -1201,7 +1219,9 @@ pub fn run_c12(cfg: &Cfg, rep: &mut Report) {
                             }
                         }
                     }
-                    sels.push((rng.chance(1, 2), rng.below(16384) as u16, rng.chance(1, 2), us));
+                    let xs = crate::util::extra_numbers14();
+                    let number = if !xs.is_empty() && rng.chance(1, 2) { *rng.pick(&xs) } else { rng.below(16384) as u16 };
+                    sels.push((rng.chance(1, 2), number, rng.chance(1, 2), us));
                 }
                 plays.push(new_play(build_sentence(c, &sels, &mut id)));
             }
